@@ -57,6 +57,7 @@ class Executor(object):
         P.restore_constants()
         P.BARRIER.log[:] = []
         P.GRIDS.clear()
+        P.GRID_CANON.clear()
         self.memo = {}
         self.done = []
         self.held = []          # results the caller still holds: (call name, object, canonical form when it was returned)
@@ -77,6 +78,7 @@ class Executor(object):
         except Discard:
             return None      # an argument object could not be constructed (another property's business)
         watched = self._watch(args)
+        # objects the caller keeps between calls (grid files read once) are the caller's as well
         raw = None
         try:
             raw = fn(*args)
@@ -96,6 +98,11 @@ class Executor(object):
             if P.canon(a) != before:
                 raise Fail("%s modified an argument supplied by the caller" % call["fn"], expected=before,
                            observed={"arg": i, "after": P.canon(a)}, bucket="argument mutated by " + call["fn"])
+        # (c'') objects the caller keeps between calls (a grid file read once): still what the reader returned
+        for k, gobj in sorted(P.GRIDS.items()):
+            if P.canon(gobj) != P.GRID_CANON.get(k):
+                raise Fail("%s modified a grid object the caller keeps" % call["fn"], expected=P.GRID_CANON.get(k), observed=P.canon(gobj),
+                           bucket="kept object mutated by " + call["fn"])
         # (a) + (b) constants untouched
         if P.BARRIER.log:
             w = P.BARRIER.log[0]
